@@ -527,6 +527,55 @@ func c02Record(c *h.Ctx) error {
 			m["muser"] = utf16leToCPs(userF)
 			m["ti"] = h.Bytes(ti)
 			emit(m)
+			// the same exchange when the server negotiated the OEM character set: the names travel as OEM bytes, the response is
+			// keyed exactly as before (MS-NLMP 3.3.2: NTOWFv2 is taken over the UTF-16LE names whatever the message uses)
+			isASCII := func(t string) bool {
+				for _, r := range t {
+					if r > 126 || r < 32 {
+						return false
+					}
+				}
+				return true
+			}
+			if isASCII(s.user) && isASCII(s.dom) {
+				var msg2 []byte
+				var err2 error
+				if p := h.Guard(func() {
+					msg2, err2 = ntlm.CreateAuthenticateMessage(&ntlm.ChallengeMessage{
+						NegotiateFlags:  ntlm.NTLMSSP_NEGOTIATE_OEM | ntlm.NTLMSSP_NEGOTIATE_EXTENDED_SESSIONSECURITY,
+						ServerChallenge: s.sc, TargetInfo: append([]byte(nil), ti...)}, s.user, s.pw, s.dom, "WS")
+				}); p != "" {
+					c.Fail("ntlm.CreateAuthenticateMessage", "panic", p, smp)
+					continue
+				} else if err2 != nil {
+					c.Fail("ntlm.CreateAuthenticateMessage", "error", err2.Error(), smp)
+					continue
+				}
+				lm2, e1 := authField(msg2, 12)
+				nt2, e2 := authField(msg2, 20)
+				dom2, e3 := authField(msg2, 28)
+				user2, e4 := authField(msg2, 36)
+				if e1 != nil || e2 != nil || e3 != nil || e4 != nil {
+					c.Fail("ntlm.CreateAuthenticateMessage", "ntlmv2:payload", fmt.Sprint(e1, e2, e3, e4), smp)
+					continue
+				}
+				oem := func(b []byte) []int {
+					out := make([]int, len(b))
+					for i, x := range b {
+						out[i] = int(x)
+					}
+					return out
+				}
+				m = base("auth")
+				m["api"] = "CreateAuthenticateMessage"
+				delete(m, "cc")
+				m["nt"] = h.Bytes(nt2)
+				m["lm"] = h.Bytes(lm2)
+				m["mdom"] = oem(dom2)
+				m["muser"] = oem(user2)
+				m["ti"] = h.Bytes(ti)
+				emit(m)
+			}
 		}
 	}
 	c.Exec(events)
